@@ -2,26 +2,26 @@
 """Regenerates MANIFEST.json from the table below (kept in one place so that it stays valid)."""
 import json
 LEVEL = {
- 'C01': ('ISI scan = definition: theorem by induction over the scan (model), model tied to /repo by exact-structure correspondence on exhaustive grids + random cases', 'full'),
- 'C02': ('SPIKE scan: structural theorems (breakpoints, lengths, tie value 0, symmetry of dist_at_t); values tied by correspondence and the definition oracle; known finding F9 excluded', 'partial'),
- 'C03': ('coincidence window bounds and strict-tie theorems on the model; profile/filter agreement by correspondence', 'partial'),
- 'C04': ('sign convention / swap negation theorems on the model of the two directionality scans; API aggregation by correspondence', 'partial'),
- 'C05': ('scalar = average of profile: definitional in the API model + integral linearity theorems', 'partial'),
- 'C06': ('all-pairs aggregate: add commutativity/associativity theorems on the model', 'partial'),
- 'C07': ('range / symmetry / identity theorems on the model (ISI complete; Sync, order ranges; SPIKE non-negativity)', 'partial'),
- 'C08': ('shift/scale equivariance theorems proved directly on the model kernels', 'partial'),
- 'C09': ('add = pointwise addition on merged support: theorems by induction over the merge', 'partial'),
- 'C10': ('integral / evaluation theorems for the model of the function classes', 'partial'),
- 'C11': ('discrete add / open-interval integral theorems', 'partial'),
- 'C12': ('source-level: .pyx transliterated and run against the .py twin and the Lean model; equality theorems between the two models where the sources differ', 'partial'),
- 'C13': ('reconcile theorems (sorted, nodup, membership, idempotent) + API = core∘reconcile by correspondence; non-mutation monitored', 'partial'),
- 'C14': ('call-form / indices theorems over the API model', 'partial'),
- 'C15': ('MRTS monotonicity and no-op theorems on the kernels', 'partial'),
- 'C16': ('tau ≤ max_tau theorem on getTau; monotone in max_tau', 'full'),
- 'C17': ('filter = threshold on pairwise counts: decision-logic theorems over the API model', 'partial'),
- 'C18': ('denominator positivity / shape theorems; exceptions monitored', 'partial'),
- 'C19': ('structural round-trip model; IEEE decimal round-trip assumed', 'partial'),
- 'C20': ('merge = sorted permutation of the union; PSTH count conservation; Poisson output shape', 'partial'),
+ 'C01': ('ISI scan = definition, by functional induction over the merge scan with a loop invariant; API level incl. empty trains; model tied to /repo by exact-structure correspondence (exhaustive grids + random) and the definition oracle', 'full'),
+ 'C02': ('SPIKE scan = cursor-free definition at every breakpoint and every time (refinement theorem by induction over the scan), values in [0,1], 0 at shared spikes, global nearest-spike minimum; all outside the class of known finding F9, for which the full statement is proved FALSE of the code', 'partial: F9 class excluded'),
+ 'C03': ('SPIKE-Sync scan = pairwise coincidence definition (refinement theorem), filter indicator = same definition, one-to-one, adjacent, strict ties, window <= half ISI; API level through reconcile theorems', 'full (model)'),
+ 'C04': ('order / directionality scans = sign-convention spec (refinement), swap negation, leader/follower cancellation, antisymmetric matrix, synfire identity', 'full (kernel) + API identities'),
+ 'C05': ('scalar = average of its profile: bivariate definitional; multivariate ISI / SPIKE / Sync over the whole recording and over any sub-interval (integral linearity over add proved for all three function classes); single-pass compiled routines = profile average', 'full (model)'),
+ 'C06': ('all-pairs aggregate: divide-and-conquer = fold on an associative/commutative class, multivariate profile = mean of pair profiles at every time (ISI, SPIKE), scalar measures invariant under permutation of the list (ISI, SPIKE, Sync), matrices = bivariate entries', 'partial: permutation invariance of profile representations pending (wave D3)'),
+ 'C07': ('range / symmetry / identity: ISI complete; SPIKE profile in [0,1] (outside F9), SPIKE symmetry for all inputs, SPIKE identity for all valid trains; Sync and order ranges, symmetry, directionality self = 0', 'partial: range of SPIKE distance (average) and multivariate values pending (wave D2)'),
+ 'C08': ('affine equivariance (shift + positive scaling incl. MRTS, max_tau) of all 7 kernels for all inputs; mirror theorems for ISI, Sync, order; SPIKE mirror false on F9 and otherwise pending (wave D1)', 'partial'),
+ 'C09': ('add = pointwise addition on the merged support for Pwc / Pwl / Disc: one-step theorems by induction over the merge, associativity / commutativity as representations, integrals over any sub-interval distribute, refinement of arbitrary add / mul_scalar / copy histories to pointwise arithmetic', 'full (model)'),
+ 'C10': ('integral / average / evaluation of the three function classes are the exact Riemann integral / one-sided limits (theorems for whole support, sub-intervals, interval lists, rejects)', 'full (model)'),
+ 'C11': ('discrete add by event, open-interval integrals, lists, rejects, averages, plottable smoothing; histories', 'full (model)'),
+ 'C12': ('source level: the .pyx sources are transliterated on every run and executed against the .py twin and the Lean model; equality theorems between the Pyx and Py models (profiles, get_tau, single-pass = profile average, multiplicities); the compiled binary itself never runs here', 'partial by construction'),
+ 'C13': ('reconcile theorems (common interval, strictly increasing, exact content, idempotent, order/repeats irrelevant); EVERY API function = its Reconcile=False core on the reconciled trains (25 functions), switch irrelevant on valid input; non-mutation monitored at run time', 'full (model) + monitor'),
+ 'C14': ('call-form / indices / pair theorems over the API model for every measure and keyword combination', "full (model); 'auto'+indices = known finding F8"),
+ 'C15': ('MRTS antitone at kernel AND whole-profile level (ISI, SPIKE, Sync), small-MRTS and MRTS=0 no-ops, breakpoints independent of MRTS, isi_lengths = ISI-list definition outside the class of known finding F7 (full statement proved false), auto threshold = rms of pooled list and positive', 'partial: F7 class excluded'),
+ 'C16': ('window <= max_tau (after fix F4), coincident implies closer than max_tau, monotone in max_tau, None = 0 = unbounded', 'full'),
+ 'C17': ('filter keeps exactly the spikes whose coincidence count exceeds threshold*(N-1): keep_iff, partition, antitone in threshold; count = number of coincident trains; fraction = value of the multivariate SPIKE-Sync profile at the spike time', 'full (model); float rounding = known finding F11'),
+ 'C18': ('positive denominators (ISI, SPIKE), shapes and well-formedness of all profile kinds incl. SPIKE pair and multivariate profiles, no zero division in sync; exceptions / NaN monitored on the implementation over the degenerate-input catalogue', 'partial: API totality theorems pending (wave D4)'),
+ 'C19': ('text round trip: load(save) = trains rounded to the printed precision, line structure, comments, empty lines, sorting, printed-value accuracy bound; IEEE decimal conversion assumed', 'partial'),
+ 'C20': ('merge = sorted multiset union, PSTH bins partition the spikes and conserve the count, Poisson generator output sorted and inside the interval', 'full (model)'),
 }
 checks = []
 for pid, (text, strength) in LEVEL.items():
